@@ -2,6 +2,7 @@ package main
 
 import (
 	"bytes"
+	"context"
 	"errors"
 	"fmt"
 	"io"
@@ -94,6 +95,26 @@ func checkWorld(r *seq.Run, w *world, seqn []op) {
 				r.Violation("", "probe-level", fmt.Sprintf("%s: debug event of value %d (%s): %d lines written, the derivation path's level is %v (written expected: %v)", desc(), i, o.origin, n, o.m.Level, exd.Written), desc())
 			}
 		}
+		// the probes below exercise state that does not belong to one logger value (the pools, Go contexts): they
+		// run on the value this world created last (every value is the last one of some world) and on the root
+		heavy := i == len(w.objs)-1 || i == 0
+		// loggers travelling in Go contexts: attaching a derived logger to a context that already carries one must
+		// yield a new context and leave the first context's logger as it was
+		if heavy {
+			emit := func(l *zerolog.Logger) string {
+				w.lines = [2][][]byte{}
+				l.Error().Msg("wc")
+				return string(bytes.Join(append(append([][]byte{}, w.lines[0]...), w.lines[1]...), nil))
+			}
+			child := lg.With().Str("wc", "child").Logger()
+			wantParent, wantChild := emit(&lg), emit(&child)
+			base := lg.WithContext(context.Background())
+			ctx2 := child.WithContext(base)
+			gotChild, gotParent := emit(zerolog.Ctx(ctx2)), emit(zerolog.Ctx(base))
+			if gotParent != wantParent || gotChild != wantChild {
+				r.Violation("", "withcontext", fmt.Sprintf("%s: value %d stored in a Go context, then a child stored in a context derived from it: the first context's logger now emits %q (want %q), the second context's %q (want %q)", desc(), i, gotParent, wantParent, gotChild, wantChild), desc())
+			}
+		}
 		// the sampler of the derivation path (the Sample step's sampler rejects warn events)
 		{
 			w.lines = [2][][]byte{}
@@ -124,6 +145,9 @@ func checkWorld(r *seq.Run, w *world, seqn []op) {
 			}
 		} else {
 			r.Violation("", "probe-marshalers", fmt.Sprintf("%s: %d of 3 probe marshalers ran", desc(), len(w.seen)), desc())
+		}
+		if !heavy {
+			continue
 		}
 		// the scratch paths: marshalers reached through Fields (map and slice), error values that render themselves
 		// as objects (Err, Errs, Fields, Array.Err), Array.Object, EmbedObject - on an event and on a Context. Each
